@@ -290,6 +290,11 @@ func mwUsers() []mwUser {
 		{NameID: "carol", Index: "si-carol", Attrs: []AttrSpec{{Name: "role", Friendly: "role", Values: []string{"user"}}}},
 		{NameID: "dave", Index: "si-dave", Attrs: []AttrSpec{{Name: "role", Values: []string{"user", "admin"}}, {Name: "urn:x:other", Friendly: "other", Values: []string{"admin"}}}},
 		{NameID: "erin", Index: "si-erin"},
+		// the same attribute name twice with other attributes in between, spread over two statements
+		{NameID: "frank", Index: "si-frank", Attrs: []AttrSpec{{Name: "unit", Values: []string{"zqunit1qz"}}, {Name: "role", Friendly: "role", Values: []string{"none"}},
+			{Name: "mail", Friendly: "mail", Values: []string{"zqmail6qz"}}, {Name: "unit", Values: []string{"admin"}, Stmt: 1}, {Name: "tail", Values: []string{"zqtail6qz"}, Stmt: 1}}},
+		{NameID: "grace", Index: "si-grace", Attrs: []AttrSpec{{Name: "groups", Values: []string{"zqg7aqz", "zqg7bqz"}}, {Name: "role", Friendly: "role", Values: []string{"user"}},
+			{Name: "groups", Values: []string{"zqg7cqz"}}, {Name: "role", Friendly: "role", Values: []string{"admin"}}}},
 	}
 }
 
